@@ -996,6 +996,7 @@ func decodeNodeStatus(pb *internal.NodeStatus, m *pilosa.NodeStatus) {
 		return
 	}
 	m.Node = &pilosa.Node{}
+	decodeNode(pb.Node, m.Node)
 	m.Indexes = decodeIndexStatuses(pb.Indexes)
 	m.Schema = &pilosa.Schema{}
 	decodeSchema(pb.Schema, m.Schema)
